@@ -58,6 +58,20 @@ class Ob:
         self.name, self.kind, self.path, self.smt2, self.watch, self.meta = d["name"], d["kind"], d.get("path", 0), d["smt2"], d.get("watch", {}), d.get("meta", {})
 
 
+def _finding_for(kf_prop, kind, text, sig=""):
+    """The known finding (if any) whose matcher of this kind covers `text` (an obligation group or a violation key)."""
+    for f in kf_prop:
+        ms = f.get("match", [])
+        for m in ms if isinstance(ms, list) else [ms]:
+            if m.get("kind") != kind:
+                continue
+            if kind == "vc" and re.fullmatch(m["obligation_regex"], text) and (not m.get("signature_regex") or re.fullmatch(m["signature_regex"], sig or "")):
+                return f
+            if kind == "bounded" and re.fullmatch(m["key_regex"], text):
+                return f
+    return None
+
+
 def _safe(name: str) -> str:
     return re.sub(r"[^A-Za-z0-9_.\-\[\]]+", "_", name)[:180]
 
@@ -163,6 +177,10 @@ def run_property(pid: str, tier: str, seed: int) -> int:
     for unit, ob, job, r in refuted:
         groups.setdefault(re.sub(r"/(s\d+)?p\d+$", "", ob.name), []).append((unit, ob, job, r))
     for group, members in groups.items():
+        pre = _finding_for([f for f in kf_prop if not any(m.get("signature_regex") for m in (f["match"] if isinstance(f["match"], list) else [f["match"]]))], "vc", group)
+        if pre is not None:  # listed finding identified by the obligation alone: no replay needed
+            known_hit.setdefault(pre["id"], pre)
+            continue
         best = None
         for n_try, (unit, ob, job, r) in enumerate(members):
             rfile = os.path.join(VERIF, "replays", pid, _safe(ob.name.split("/", 1)[1]) + ".json")
@@ -186,12 +204,7 @@ def run_property(pid: str, tier: str, seed: int) -> int:
             if reproduced:
                 break
         rfile, reproduced, sig = best
-        hit = None
-        for f in kf_prop:
-            m = f.get("match", {})
-            if m.get("kind") == "vc" and re.fullmatch(m["obligation_regex"], group) and (not m.get("signature_regex") or re.fullmatch(m["signature_regex"], sig or "")):
-                hit = f
-                break
+        hit = _finding_for(kf_prop, "vc", group, sig)
         if hit is not None:
             known_hit.setdefault(hit["id"], hit)
             continue
@@ -218,12 +231,7 @@ def run_property(pid: str, tier: str, seed: int) -> int:
         data["name"] = b["name"]
         data["wall_s"] = round(time.time() - tb, 2)
         for v in data.pop("violations", []):
-            hit = None
-            for f in kf_prop:
-                m = f.get("match", {})
-                if m.get("kind") == "bounded" and re.fullmatch(m["key_regex"], v["key"]):
-                    hit = f
-                    break
+            hit = _finding_for(kf_prop, "bounded", v["key"])
             if hit is not None:
                 known_hit.setdefault(hit["id"], hit)
                 continue
